@@ -54,14 +54,16 @@ def parseDocs (s : String) : List String := if s == "-" then [] else s.splitOn "
 def parseMembers (s : String) : Option (List Member) :=
   if s == "-" then some [] else
   (s.splitOn ",").mapM fun e =>
-    match e.splitOn ":" with
-    | [k, n, c] => do
+    let mk (k n c : String) (size : Option Int) : Option Member := do
       let kind ← (match k with
         | "r" => some MKind.reg | "d" => some MKind.dir | "s" => some MKind.symlink
         | "h" => some MKind.hardlink | "o" => some MKind.other | _ => none)
       let nm ← hexToString? n
       let c ← hexToBytes? c
-      pure ⟨kind, nm.toList, c⟩
+      pure ⟨kind, nm.toList, c, size.getD c.length⟩
+    match e.splitOn ":" with
+    | [k, n, c] => mk k n c none
+    | [k, n, c, sz] => do let z ← sz.toInt?; mk k n c (some z)      -- the header announces `sz` bytes
     | _ => none
 
 def mkIc (sizeMax : Nat) (rootAbs : String) : IdxCfg := ⟨sizeMax, fun _ => false, 20000, rootAbs⟩
@@ -135,8 +137,11 @@ def handle (line : String) : String :=
         let expected := (specArchiveDocs strip ms).map fun d =>
           let nm := String.ofList d.name
           renderDoc nm (specStored ic nm d.content)
-        if cls == "panic" then
-          specFail model (if (ms.all fun m => m.kind != .reg) then "archive-panic:no-regular-member" else "archive-panic")
+        if cls == "panic" || cls == "crash" then
+          specFail model (if lies ms then "archive-" ++ cls ++ ":lying-size"
+            else if (ms.all fun m => m.kind != .reg) then "archive-panic:no-regular-member" else "archive-" ++ cls)
+        else if lies ms then
+          (if checkLyingArchive cls then answer model else specFail model "archive-lying-size")
         else if checkArchive expected cls (parseDocs idocs) then answer model
         else specFail model "archive-docs"
       | _ => badCase "arch impl"
